@@ -813,10 +813,12 @@ impl LocalPeerService {
             let edge_deletion = edge_deletion?;
             if !edge_deletion.is_empty() {
                 has_changes = true;
-                let edge_deletion = discret_services
+                let mut edge_deletion = discret_services
                     .signature_verification
                     .verify_edge_log(edge_deletion)
                     .await?;
+                //a deletion is checked with the rights of the room it names: only this room is being synchronised
+                edge_deletion.retain(|deletion| deletion.room_id.eq(&room_id));
                 discret_services
                     .database
                     .delete_edges(edge_deletion)
@@ -835,10 +837,11 @@ impl LocalPeerService {
             let node_deletion = node_deletion?;
             if !node_deletion.is_empty() {
                 has_changes = true;
-                let node_deletion = discret_services
+                let mut node_deletion = discret_services
                     .signature_verification
                     .verify_node_log(node_deletion)
                     .await?;
+                node_deletion.retain(|deletion| deletion.room_id.eq(&room_id));
                 discret_services
                     .database
                     .delete_nodes(node_deletion)
